@@ -366,6 +366,9 @@ impl World {
 }
 
 pub fn run(job: &Job) -> Outcome {
+    if job.fault == "abort777" && job.idx == 777 {
+        std::process::abort(); // pipeline self-test: the code under test kills the process
+    }
     let polls = Rc::new(Cell::new(0u64));
     let ctl = Rc::new(Ctl {
         log: RefCell::new(vec![]),
